@@ -144,8 +144,9 @@ func (r *Recorder) Distinct(set string, h uint64) {
 		s = map[uint64]struct{}{}
 		r.distinct[set] = s
 	}
-	// bound memory: keep at most 2M members per set per shard
-	if len(s) < 2_000_000 {
+	// bound memory and the size of the result stream: at most 250k members per set per shard (the
+	// merged count is then a lower bound of the true number of distinct cases)
+	if len(s) < 250_000 {
 		s[h] = struct{}{}
 	}
 	r.mu.Unlock()
